@@ -355,6 +355,9 @@ class SceneGraph:
             b_attr = nodes[b]
             # make sure we're not stomping on original
             attr_new = attr.copy()
+            # geometry is a property of the node: drop the value passed when
+            # the edge was created as it may have been removed or replaced
+            attr_new.pop("geometry", None)
             # apply node geometry to edge attributes
             if "geometry" in b_attr:
                 attr_new["geometry"] = b_attr["geometry"]
